@@ -585,4 +585,83 @@ theorem grm_freshRun_of_nodup (ops : List Op) (s : State)
       · rw [e] at hx
         exact h0 x hx (hrest.2.1 _ hmem)
 
+-- ---------------------------------------------------------------------------------------------
+-- the repaired variant (`promoterFixed`): `CreatePromoter` refuses an address that already belongs to a promoter
+
+theorem grm_exec_promoterFixed {s s' : State} {op : Op} (h : exec s op = .ok s') : s'.promoterFixed = s.promoterFixed := by
+  cases op with
+  | time t => simp only [exec, Except.ok.injEq] at h; subst h; rfl
+  | createPromoter m => obtain ⟨_, _, rfl⟩ := createPromoter_ok h; rfl
+  | setConf m => obtain ⟨p, _, _, _, rfl⟩ := setPromoterConf_ok h; rfl
+  | createCampaign m => obtain ⟨_, _, _, _, _, _, _, _, _, _, _, rfl⟩ := createCampaign_ok h; rfl
+  | updateCampaign m =>
+    obtain ⟨c, gs, _, _, _, _, _, hcase⟩ := updateCampaign_ok h
+    rcases hcase with ⟨_, _, _, _, _, rfl⟩ | ⟨_, rfl⟩ <;> rfl
+  | withdraw m => obtain ⟨_, _, _, _, _, _, _, _, _, _, _, _, rfl⟩ := withdrawFunds_ok h; rfl
+  | grant m => obtain ⟨_, _, _, _, _, _, _, _, _, _, _, _, _, rfl⟩ := grantReward_ok h; rfl
+  | authzGrant a b k l e => obtain ⟨_, _, rfl⟩ := authzGrant_ok h; rfl
+  | authzRevoke a b k => have := authzRevoke_ok h; subst this; rfl
+  | putBet b => obtain ⟨_, rfl⟩ := putBet_ok h; rfl
+  | createSub o => have := createSub_ok h; subst this; rfl
+  | bankSend f t a => obtain ⟨b, _, _, _, rfl⟩ := bankSend_ok h; rfl
+
+theorem grm_step_promoterFixed (s : State) (op : Op) : (step s op).promoterFixed = s.promoterFixed := by
+  rcases step_eq s op with ⟨s', h, e⟩ | e
+  · rw [e]; exact grm_exec_promoterFixed h
+  · rw [e]
+
+theorem grm_run_promoterFixed (s : State) (ops : List Op) : (run s ops).promoterFixed = s.promoterFixed := by
+  induction ops generalizing s with
+  | nil => rfl
+  | cons op rest ih =>
+    show (run (step s op) rest).promoterFixed = s.promoterFixed
+    rw [ih, grm_step_promoterFixed]
+
+/-- the three variant flags are constants of a history (`fixed`, `codecFixed`: RewardStep.lean) -/
+theorem grm_run_flags (s : State) (ops : List Op) :
+    (run s ops).fixed = s.fixed ∧ (run s ops).codecFixed = s.codecFixed ∧ (run s ops).promoterFixed = s.promoterFixed :=
+  ⟨run_fixed s ops, run_codecFixed s ops, grm_run_promoterFixed s ops⟩
+
+/-- repaired `CreatePromoter`: success implies that the sender had no promoter-by-address record -/
+theorem grm_createPromoter_fresh {s s' : State} {m : PromoterMsg} (h : createPromoter s m = .ok s')
+    (hp : s.promoterFixed = true) : getA s.byAddr m.creator = none := by
+  unfold createPromoter at h
+  invert h
+  cases hg : getA s.byAddr m.creator with
+  | none => rfl
+  | some x => simp_all
+
+theorem grm_freshOp_of_fixed {s s' : State} {op : Op} (hp : s.promoterFixed = true) (h : exec s op = .ok s') :
+    grm_freshOp s op = true := by
+  cases op with
+  | createPromoter m =>
+    show (getA s.byAddr m.creator).isNone = true
+    rw [grm_createPromoter_fresh h hp]
+    rfl
+  | _ => rfl
+
+theorem grm_catOK_step_fixed {s : State} (op : Op) (hC : grm_CatOK s) (hp : s.promoterFixed = true) :
+    grm_CatOK (step s op) := by
+  rcases step_eq s op with ⟨s', h, e⟩ | e
+  · rw [e]; exact grm_catOK_exec hC (grm_freshOp_of_fixed hp h) h
+  · rw [e]; exact hC
+
+/-- on the repaired variant the by-category index stays filed under the right promoter in EVERY history -/
+theorem grm_catOK_run_fixed {s : State} (ops : List Op) (hC : grm_CatOK s) (hp : s.promoterFixed = true) :
+    grm_CatOK (run s ops) := by
+  induction ops generalizing s with
+  | nil => exact hC
+  | cons op rest ih =>
+    exact ih (grm_catOK_step_fixed op hC hp) (by rw [grm_step_promoterFixed]; exact hp)
+
+theorem grm_rwI_init' (fixed cf pf : Bool) (bal : Nat → Int) :
+    grm_RwI { init fixed bal with codecFixed := cf, promoterFixed := pf } := by
+  have h := inv_init fixed bal
+  refine ⟨⟨h.addrOk, h.promOk, h.avail, h.once, h.idxCat, h.idxCamp, h.cap⟩, ?_, ?_, ?_, ?_, ?_⟩
+  · exact List.Pairwise.nil
+  · exact List.Pairwise.nil
+  · exact List.Pairwise.nil
+  · intro x hx; cases hx
+  · intro x hx; cases hx
+
 end Sge.Reward
